@@ -212,6 +212,9 @@ def twin_path(r, path):
 
 
 def list_doc(r, depth=3, sc=scalar):
+    if r.pct() < 4:
+        # occasionally a long, flat container (size-dependent behaviour, e.g. a fast path)
+        return [sc(r) for _ in range(r.between(9, 24))]
     out = [value(r, depth - 1, sc) for _ in range(r.between(1, 4))]
     if r.pct() < 15:
         t = twin(r, out)
@@ -222,6 +225,10 @@ def list_doc(r, depth=3, sc=scalar):
 
 def map_doc(r, depth=3, sc=scalar):
     d = {}
+    if r.pct() < 4:
+        for i in range(r.between(9, 24)):
+            d[f"k{i}" if r.coin(70) else i] = sc(r)
+        return d
     for _ in range(r.between(1, 4)):
         d[key(r)] = value(r, depth - 1, sc)
     if r.pct() < 15:
@@ -452,7 +459,7 @@ def tree(r, kinds=("value",), mode="any", depth=3, null_p=10, meaningful=False, 
 
 # --------------------------------------------------------------------------- paths
 PRIMS = ["a", "b", "abc", "1", "", "x y", 0, 1, 2, -1, 5, 0.0, 1.0, 2.5, True, False]
-LABELS = ["L", "lbl"]
+LABELS = ["L", "lbl", "L", "lbl", "", 0]
 
 
 def blind_part(r, mode="typed", cond_depth=1, labels=False, meaningful=False, jsonable=False):
